@@ -89,6 +89,11 @@ func (s *Syncer[H]) networkHead(ctx context.Context) (H, bool, error) {
 			"subjective_height",
 			sbjHead.Height(),
 		)
+		// a concurrent caller sharing the same request might have advanced the local head already,
+		// don't report the outdated one then
+		if curHead, lerr := s.localHead(ctx); lerr == nil && curHead.Height() > sbjHead.Height() {
+			sbjHead = curHead
+		}
 
 		return sbjHead, false, nil
 	}
